@@ -212,6 +212,19 @@ STATE = {'nontrivial': False}
 def cases(rng, tier, shard, nshards):
     total = META['quick_cases'] if tier == 'quick' else META['thorough_cases']
     fams = gen.FAMILIES + ['smallint', 'stairs', 'smallint', 'mrc']
+    if shard < 6 or tier == 'thorough':
+        # a full trace handed to the filter (tens of thousands of points, a fine ripple on top, narrow spikes): the ranked
+        # segments span thousands of points, where subsampled / blocked evaluation of the scores would show
+        pts = gen.long_spiky(rng, nlo=18000, nhi=33000)
+        if rng.random() < 0.6:
+            pts[:, 1] += np.where(np.arange(len(pts)) % 2 == 0, 0.0, float(rng.uniform(2.0, 30.0)))
+        n = len(pts)
+        # one cluster (t = 1 joins every knee under all four linkages) whose members lie 9000..20000 points apart
+        span = int(rng.integers(9000, min(n - 200, 20000)))
+        a0 = int(rng.integers(50, n - span - 50))
+        knees = np.unique(np.concatenate(([a0, a0 + span], rng.integers(a0, a0 + span, int(rng.integers(1, 5))))))
+        yield {'points': pts, 'family': 'long-trace', 'layout': 'C', 'knees': knees.astype(int), 'linkage': pick(rng, LINKAGES),
+               't': 1.0, 'mode': pick(rng, [m for m in MODES if m != 'hull'])}
     for i in range(shard_count(total, shard, nshards)):
         r = rng.random()
         if tier == 'thorough' and r < 0.03:
